@@ -13,9 +13,6 @@ Definition res_ok (c : config) (s : state) (r : result) : Prop :=
   | ResTimeout => startup_may_fire c = true
   end.
 
-Definition main_res (m : main_pc) : option result :=
-  match m with MExit r | MWaitSd r | MReturned r => Some r | _ => None end.
-
 Record InvErr (c : config) (s : state) : Prop := {
   ie_errq : forall id, In id (errq s) -> real s id;
   ie_rn : forall i id, rn_at s i = RnSending id -> real s id;
